@@ -143,7 +143,7 @@ class Run:
     def do(self, op, can_read, can_append, can_write):
         db, k = self.db, op[0]
         m = self.model
-        if k in ("probe", "probe_hit"):
+        if k in ("probe", "probe_hit", "probe_twin"):
             if k == "probe_hit":
                 ls = _Resolver(m)
                 q = lockstep.Lockstep.resolve_hit(ls, op[1], op[2])
